@@ -245,6 +245,11 @@ def plan_for_setting(row, tier, seed):
             cases.append({"number": number, "choice": choice, "D": N, "sites": batch, "cell": cells[cell_i],
                           "slab": SLABS[slab_i] if slab_i is not None else None, "z0": 1 + (bi * 17) % 103,
                           "variant": variant})
+    # the same orbit representatives given with negative / > 1 coordinates (shifted by lattice vectors): identical unit cell
+    reps0 = [o[0] for o in orbs][:120]
+    shifts = [(-1, 0, 0), (0, 2, -1), (-3, 1, 2), (4, -2, 0), (-6, -6, 5)]
+    shifted = [tuple(p[k] + shifts[i % len(shifts)][k] * N for k in range(3)) for i, p in enumerate(reps0)]
+    cases.append({"number": number, "choice": choice, "D": N, "sites": shifted, "cell": cells[0], "slab": None, "z0": 3, "variant": "lattice-shifted"})
     Dg = 12 * 997
     for ci, cell in enumerate(cells):
         cases.append({"number": number, "choice": choice, "D": Dg, "sites": generic_sites(seed + ci, Dg, ops), "cell": cell,
